@@ -154,6 +154,9 @@ func GenRuleSet(t *rapid.T, o RuleOpts) *Generated {
 	if !o.IdentNames && rapid.IntRange(0, 3).Draw(t, "oddstates") == 0 {
 		// state names are free text: quotes, backslashes, control characters, non-ASCII
 		stateNames = []string{"Root", "S\x1b1", "S é", "S\"q\\"}
+		if rapid.IntRange(0, 2).Draw(t, "casetwins") == 0 {
+			stateNames = []string{"Root", "expr", "Expr", "EXPR"} // names that differ in capitalisation only
+		}
 		if rapid.IntRange(0, 2).Draw(t, "emptystate") == 0 {
 			stateNames[rapid.IntRange(1, 3).Draw(t, "whichempty")] = "" // a state may be called "" like any other string
 		}
